@@ -334,3 +334,9 @@ package arvados
 // locator pattern, which guarantees at least 34 characters.  (Safety
 // obligations only; they are generated automatically.)
 //@ func Collection.SizedDigests property C10
+
+// filenode.Write is deliberately NOT under contract: the contracts above
+// observe segment lengths through the state-independent function segment.Len
+// (sound for seek/Read/openFile, which do not mutate segments); Write grows and
+// splits memSegments in place, so its proof needs a heap-dependent length
+// function and prefix-sum lemmas over spliced slices (see /verif/DESIGN.md 10.8).
